@@ -2,10 +2,13 @@
    Proved for EVERY string (list of code points) and both arithmetic modes (Checked = overflow traps reject,
    Wrapping = u8 arithmetic wraps, shift amounts are masked): an accepted string yields a position that passed
    validate and carries the key recomputed from scratch; and what passing validate means.
-   PARTIAL: "us | them = union of the piece boards" (the XOR-parity argument of DESIGN A6) and completeness on D
-   are checked by the correspondence run (executable Valid on every accepted string, every pool FEN accepted). *)
+   an accepted string also yields CONSISTENT bitboards (us | them = union of the six piece boards): the board loop
+   keeps  white xor black = xor of the piece boards  (each character toggles one colour bit and one piece bit of the
+   same square, wrap-around or not) and validate's disjointness tests turn the xors into unions (DESIGN A6).
+   PARTIAL: completeness on D and "a well-formed string denotes the position it spells" are checked by the
+   correspondence run (every pool FEN accepted in both notations; fields compared with an independent reading). *)
 From Coq Require Import NArith ZArith List Bool.
-From Rawr Require Import Consts Bits Magic Position MoveGen MakeMove Fen FenFacts.
+From Rawr Require Import Consts Bits Magic Position MoveGen MakeMove Fen FenFacts ParityFacts.
 Local Open Scope N_scope.
 
 Theorem C07_parse_validated : forall mode frc s q,
@@ -34,9 +37,16 @@ Theorem C07_validate_sound : forall p, validate p = None ->
   /\ is_sq_attacked p (lsb (N.land (c_them p) (kings p))) true = false.
 Proof. exact validate_sound. Qed.
 
+Theorem C07_parse_consistent : forall mode frc s q,
+  set_fen mode frc s = Some q ->
+  N.lor (c_us q) (c_them q)
+  = N.lor (pawns q) (N.lor (knights q) (N.lor (bishops q) (N.lor (rooks q) (N.lor (queens q) (kings q))))).
+Proof. exact parse_consistent. Qed.
+
 (* non-vacuity: the start position string is accepted in both modes *)
 Example C07_example : (exists q, set_fen true false STARTPOS_STR = Some q) /\ (exists q, set_fen false false STARTPOS_STR = Some q).
 Proof. split; eexists; vm_compute; reflexivity. Qed.
 
 Print Assumptions C07_parse_validated.
 Print Assumptions C07_validate_sound.
+Print Assumptions C07_parse_consistent.
